@@ -50,7 +50,7 @@ fn conflicts(names: &[String], n: &str) -> bool {
 }
 
 fn gen_world(t: &mut Tape) -> WorldSpec {
-    let below = t.chance(150);
+    let below = t.bool();
     let comps = if below { COMPS_BELOW } else { COMPS_PLAIN };
     let n = match t.weighted(&[1, 3, 5, 3]) {
         0 => t.range(1, 3),
@@ -285,7 +285,7 @@ fn compare_iteration(
 
 pub fn main() {
     let mut ck = Check::new("C18", "exploration");
-    ck.rule("Worlds of 1..40 refs under refs/{heads,tags,remotes/o,notes,x,x-} with 1..3 components from {a,a-,a.b,a0,ab,-,0,x,b,a-b,a+,HEAD} (60 % of worlds) or from {a,b,ab,a0,0,x,z,A,a_} (no byte below '/'), derived from each other (directory sibling with a suffix byte below/above '/', child, sibling); each ref loose, packed, or packed-stale + loose-current; values from 4 commits and 2 annotated tags (peeled lines); 0..3 symbolic refs incl. refs/remotes/o/HEAD (never dangling). Written by git fast-import (objects) + update-ref --stdin + pack-refs --all + update-ref --stdin. Queries: all(), 3 prefixes (category directories and parents of refs, with and without trailing '/', one absent), try_find of every name and of absent neighbours, up to 3 short names. Non-trivial: some directory X/ has a sibling X<byte below '/'>.. and some ref is both packed and loose. Distinct by world spec.");
+    ck.rule("Worlds of 1..40 refs under refs/{heads,tags,remotes/o,notes,x,x-} with 1..3 components from {a,a-,a.b,a0,ab,-,0,x,b,a-b,a+,HEAD} (half of the worlds) or from {a,b,ab,a0,0,x,z,A,a_} (no byte below '/'), derived from each other (directory sibling with a suffix byte below/above '/', child, sibling); each ref loose, packed, or packed-stale + loose-current; values from 4 commits and 2 annotated tags (peeled lines); 0..3 symbolic refs incl. refs/remotes/o/HEAD (never dangling). Written by git fast-import (objects) + update-ref --stdin + pack-refs --all + update-ref --stdin. Queries: all(), 3 prefixes (category directories and parents of refs, with and without trailing '/', one absent), try_find of every name and of absent neighbours, up to 3 short names. Non-trivial: some directory X/ has a sibling X<byte below '/'>.. and some ref is both packed and loose. Distinct by world spec.");
     ck.assume(&format!("oracle: {} for-each-ref (default refname order) and rev-parse --symbolic-full-name", Git::version()));
     ck.assume("prefixes are whole path components (a directory name with or without trailing '/'): for those git's pattern rule (match up to a '/') and gitoxide's documented rule ('refs/heads' is equivalent to 'refs/heads/') coincide; partial-component prefixes are not compared");
     ck.assume("dangling symbolic refs are not generated (git for-each-ref omits them with a warning); for a short name that resolves to a symbolic ref git prints the final target, gitoxide returns the symbolic ref itself: the chain is followed in the harness");
@@ -298,11 +298,14 @@ pub fn main() {
         }
         // queries decoded up front (tape monotone)
         let nprefix = 3;
-        let prefix_picks: Vec<(usize, usize, bool)> = (0..nprefix).map(|_| (t.below(8), t.below(64), t.bool())).collect();
+        let prefix_picks: Vec<(usize, usize, bool)> = (0..nprefix).map(|_| (t.below(8), t.below(64), t.chance(192))).collect();
         let short_picks: Vec<(usize, usize)> = (0..3).map(|_| (t.below(64), t.below(4))).collect();
+        // lookups below a loose ref *file* (open() fails with ENOTDIR) only in some worlds
+        let probe_below_file = t.chance(40);
         c.key(&spec);
         c.key(&prefix_picks);
         c.key(&short_picks);
+        c.key(&probe_below_file);
 
         let all_names: Vec<String> = spec
             .refs
@@ -316,6 +319,7 @@ pub fn main() {
         c.label_if(pair_below, "dir-with-sibling-below-slash");
         c.label_if(has_both, "stale-packed-shadowed");
         c.label_if(!spec.symrefs.is_empty(), "symrefs");
+        c.label_if(probe_below_file, "lookups-below-ref-file");
         c.label(match spec.refs.len() {
             0..=3 => "refs-1..3",
             4..=8 => "refs-4..8",
@@ -575,7 +579,9 @@ pub fn main() {
         for l in want_all.iter().take(12) {
             absent.push(format!("{}x", l.name));
             absent.push(format!("{}-", l.name));
-            absent.push(format!("{}/a", l.name));
+            if probe_below_file {
+                absent.push(format!("{}/a", l.name));
+            }
             if let Some(p) = l.name.rfind('/') {
                 absent.push(l.name[..p].to_string());
             }
@@ -695,7 +701,12 @@ pub fn main() {
         }
 
         // report: anything outside the known walk-order class first
-        const KNOWN_CLASSES: &[&str] = &["loose-walk-order", "prefix-dir-yields-string-prefix-sibling", "find-enotdir"];
+        const KNOWN_CLASSES: &[&str] = &[
+            "loose-walk-order",
+            "prefix-dir-yields-string-prefix-sibling",
+            "prefix-yields-unrelated-ref",
+            "find-enotdir",
+        ];
         let pick = failures
             .iter()
             .find(|(s, _)| !KNOWN_CLASSES.contains(&s.as_str()))
